@@ -18,11 +18,11 @@ CHECKS = {
                 note="As C01. 'Rate coefficients held fixed' = results of EvalRates/GetNumDens/GetMu/GetGamma have zero gradient. Particle density and k_B assumed non-zero."),
     "C03": dict(engine=E1, cat="translation_validation", sec="6 C03",
                 technique="symbolic execution with exactly-sized, bounds-checked memory objects; array-theory SMT queries (symbolic row/position) for CSR well-formedness; SMT equivalence of dense / odeint / CSR / cuSPARSE entries",
-                text="All memory accesses of Fex/Jac/EvalRates stay inside objects sized by the generated macros; the CSR arrays satisfy the well-formedness formula for a symbolic row and position; dense, odeint, sparse and cusparse Jacobians hold solver-equal terms at the same (row, col); the pattern file marks exactly the stored entries; a second evaluation of the sparse Jacobian on the same matrix after SUNMatZero (in the state the first left) yields the same index arrays and solver-equal values; the cusparse driver (Naunet::Init / Reset, executed symbolically with recording stubs) keeps only block-CSR matrices of the declared shape that went through InitJac.",
+                text="All memory accesses of Fex/Jac/EvalRates stay inside objects sized by the generated macros; the CSR arrays satisfy the well-formedness formula for a symbolic row and position; dense, odeint, sparse and cusparse Jacobians hold solver-equal terms at the same (row, col); the pattern file marks exactly the stored entries; a second evaluation of the sparse Jacobian on the same matrix after SUNMatZero (in the state the first left) yields the same index arrays and solver-equal values; the dense and sparse drivers (Naunet::Init / Reset, executed symbolically with recording stubs) keep a matrix of the declared shape and storage format (CSR) and build the linear solver with it; the cusparse driver keeps only block-CSR matrices of the declared shape that went through InitJac.",
                 note="As C01. Offsets are concrete in generated code, so bounds are decided exactly per project."),
     "C04": dict(engine=E1, cat="translation_validation", sec="6 C04",
                 technique="symbolic execution of compiled Fex and GetElementAbund + SMT: element- and charge-weighted sums of ydot are identically zero for enumerated balanced networks, and the library's element totals are the count-weighted sums, with weights from a hand-written composition table",
-                text="For exhaustively enumerated balanced reactions over seven molecule pools (ions, both electron spellings, o/p labels, isotopologues, ice/gas pairs, grains in several charge states, multiply charged anions, formulas repeating an element symbol, names beginning like a pseudo-element symbol such as Mg / oH2 / c-C3H), API-built, written in each of the five line-oriented input formats and as a KROME file with several @format directives of equal column count, z3 shows sum_s c_e(s)*ydot_s != 0 unsat for each element and for charge, for all y and k, on all back-ends; GetElementAbund(ab, e) != sum_s c_e(s)*ab_s is unsat for all ab; every reaction as held by the network after reading a balanced input is itself balanced by the same table (concrete side obligation).",
+                text="For exhaustively enumerated balanced reactions over seven molecule pools (ions, both electron spellings, o/p labels, isotopologues, ice/gas pairs, grains in several charge states, multiply charged anions, formulas repeating an element symbol, names beginning like a pseudo-element symbol such as Mg / oH2 / c-C3H), API-built (also rendered under the hh93 dust models from a Leeds gas-grain file), written in each of the five line-oriented input formats and as a KROME file with several @format directives of equal column count, z3 shows sum_s c_e(s)*ydot_s != 0 unsat for each element and for charge, for all y and k, on all back-ends; GetElementAbund(ab, e) != sum_s c_e(s)*ab_s is unsat for all ab; every reaction as held by the network after reading a balanced input is itself balanced by the same table (concrete side obligation).",
                 note="As C01. Compositions come from the corpus' own table (vf/corpus_balanced.py), not from the generator's name parser."),
     "C05": dict(engine=E1, cat="translation_validation", sec="6 C05",
                 technique="symbolic execution of the compiled EvalRates (floating literals lifted to exact-valued externs so nothing is constant-folded) + SMT equivalence with each database's rate law, libm as uninterpreted functions; native libm replay",
@@ -42,7 +42,7 @@ CHECKS = {
                 note="Selector enumeration by the solver, not symbolic strings (CrossHair's regex model is unreliable on this tokenizer; stated in DESIGN.md). Mass numbers from an independent table."),
     "C09": dict(engine=E2, cat="exploration", sec="6 C09",
                 technique="CrossHair-selected name pairs on the real Species.__eq__/__hash__/alias + per-project z3 Distinct/range queries over the index tables read back from every generated artefact (macros through the real preprocessor, Python constants via ast, TOML summary, Enzo patch header)",
-                text="For all ordered pairs of 40 names: equality, hash equality and alias equality coincide with species identity and every alias is a legal identifier; for four rendered projects the species and element macros are bijections onto 0..N-1 and agree with constant_indexes.py, the counts and per-slot lists of pynaunet_model/constants.py, the [summary] written by `naunet render`, the A_ table of the Enzo patch (rendered by a separate interpreter run under another string-hash seed) and the per-species fields of every other patch file; the Enzo patch is the same, up to the alias eM/EM, however the electron is spelled.",
+                text="For all ordered pairs of 40 names: equality, hash equality and alias equality coincide with species identity and every alias is a legal identifier; for four rendered projects the species and element macros are bijections onto 0..N-1 and agree with constant_indexes.py, the counts and per-slot lists of pynaunet_model/constants.py, the [summary] written by `naunet render`, the A_ table of the Enzo patch (rendered by a separate interpreter run under another string-hash seed) the field-type enumeration of the patched typedefs.h (one identifier and one value per species field) and the per-species fields of every other patch file; the Enzo patch is the same, up to the alias eM/EM, however the electron is spelled.",
                 note="Per-project obligations are ground facts (stated as such); names and identity classes are a fixed table."),
     "C14": dict(engine=E2, cat="exploration", sec="6 C14",
                 technique="CrossHair symbolic execution (z3) of the real Network add/remove/allowed-species/source-sink logic on stub species with symbolic integer identities (all paths), plus solver-selected operation sequences on real reactions compared with an explicit model; the extend command is driven for real and compared with the same model",
